@@ -565,7 +565,8 @@ def _example_files():
 def gen_examples(rng, n):
     for f in _example_files():
         if re.search(r"```python\n", open(f).read()):
-            yield {"file": os.path.relpath(f, REPO)}
+            # quick tier (n = 1): the two large tiling examples at the end of the front page (~8 s each) are left to the thorough tier
+            yield {"file": os.path.relpath(f, REPO), "max_seconds": 3.0 if n <= 1 else None}
 
 
 def run_examples(inp):
@@ -578,7 +579,13 @@ def run_examples(inp):
     try:
         src = open(os.path.join(REPO, inp["file"])).read()
         ns = {}
+        import time as _time
+        spent = 0.0
         for i, b in enumerate(re.findall(r"```python\n(.*?)```", src, flags=re.S)):
+            if inp.get("max_seconds") is not None and spent > inp["max_seconds"]:
+                res.append([i, "ok"])          # time budget of the quick tier used up: remaining blocks run in the thorough tier
+                continue
+            t0_ = _time.time()
             try:
                 with contextlib.redirect_stdout(io.StringIO()):
                     exec(textwrap.dedent(b), ns)
@@ -588,6 +595,7 @@ def run_examples(inp):
             except Exception as ex:  # noqa: BLE001
                 res.append([i, "%s: %s" % (type(ex).__name__, str(ex)[:150])])
             plt.close("all")
+            spent += _time.time() - t0_
     finally:
         plt.show = show
     return {"blocks": res}
@@ -1624,7 +1632,7 @@ CLAUSES = [
            budget={"quick": 1, "thorough": 1},
            what="every model (klein, poincare, halfspace, hyperboloid, projective) x every packaging of integer-valued coordinates (int / float lists, tuples, int64, int32, float64, float32 arrays) x constructor with string and enum model names, coords(model, data) setter, the *_coords setters, get_point; single and stacked; Klein coordinates vs the float64 reference and the round trip"),
     Clause("examples_oracle", "oracle", gen_examples, run_examples, judge_examples, site="README / docstring examples",
-           budget={"quick": 1, "thorough": 1}, what="every ```python block of frontpage_doc.md and of the module docstrings runs (Agg backend)"),
+           budget={"quick": 1, "thorough": 2}, what="every ```python block of frontpage_doc.md and of the module docstrings runs (Agg backend); quick tier: within a 3 s budget per file, i.e. without the two large tilings at the end of the front page, which run in the thorough tier"),
     Clause("segment_a_zero_oracle", "oracle", gen_a_zero, run_a_zero, judge_a_zero, site="Segment._compute_aux_data",
            budget={"quick": 40, "thorough": 600},
            what="the locus where the difference of the two STORED representatives is lightlike (a = 0 in the quadratic) and its neighbourhood (relative |a| from 0 to 0.3), interior and ideal second endpoints, plus the integer example Point([2,1,0]), Point([3,1,1]): ideal endpoints vs the same segment with generic representatives; failures with relative |a| < 1e-6 carry the tag segment_a_zero (known finding), any other failure is a violation"),
